@@ -848,3 +848,137 @@ def readonly_inputs(chk, repo, rid, quals, what, floor=None):
             elif isinstance(tgt, (ast.Attribute, ast.Subscript)) and chain_root(tgt) in roots:
                 bad.append(f"`{unparse(n)[:60]}` changes the input `{unparse(tgt)}` in place")
         chk.ob(rid, f"{f.qual}: inputs are only read", f.where, not bad, '; '.join(bad[:3]), key=q + '::readonly', fn=f.qual)
+
+
+# ----------------------------------------------------------------------------- x[i - 1] never wraps around to the last element
+def no_index_wrap(chk, repo, rid, prefixes, seq_attr='exon', floor=1):
+    """`<model>.exon[i - 1]` reads the element in front of i.  For i == 0 Python does not fail: it silently returns the LAST exon.
+    Every such access must therefore be reached only when i > 0 is known on the path (a dominating test or an earlier raise)."""
+    from sa import sem
+    chk.rule(rid, f"R-GUARD: `.{seq_attr}[i - 1]` is read only where i > 0 is known (no wrap-around to the last element)", floor)
+    for f in repo.funcs_in(*prefixes):
+        seen = set()
+        for st, fx in sem.facts_where(f.node, lambda st: sem.own_stmt(st) or isinstance(st, (ast.If, ast.While))):
+            root = st.test if isinstance(st, (ast.If, ast.While)) else st
+            for n in ast.walk(root):
+                if isinstance(n, ast.Subscript) and isinstance(n.value, ast.Attribute) and n.value.attr == seq_attr and isinstance(n.slice, ast.BinOp) \
+                        and isinstance(n.slice.op, ast.Sub) and isinstance(n.slice.right, ast.Constant) and n.slice.right.value == 1 and id(n) not in seen:
+                    seen.add(id(n))
+                    X = unparse(n.slice.left)
+                    ok = sem.known(fx, f'{X} > 0') is True or sem.known(fx, f'{X} <= 0') is False or sem.known(fx, f'{X} >= 1') is True \
+                        or sem.known(fx, f'{X} < 1') is False or sem.known(fx, f'{X} == 0') is False and sem.known(fx, f'{X} < 0') is False
+                    chk.ob(rid, f"{f.qual}: `{unparse(n)}` only where {X} > 0", repo.loc(f, n), ok,
+                           f"`{unparse(n)}` is evaluated on a path where `{X} > 0` is not known: for {X} == 0 the index -1 silently selects the LAST {seq_attr} of the "
+                           "transcript instead of failing, and the record is built from the wrong exon", key=f"{f.qual}::wrap::{X}", fn=f.qual)
+
+
+# ----------------------------------------------------------------------------- an exclusive end is not tested with `in`
+def exclusive_end_membership(chk, repo, rid, prefixes, floor=1):
+    """Locations are half-open [start, end): `x.end in loc` is False for a feature that ends exactly where `loc` ends.  A membership
+    test whose left side is an `.end` coordinate must therefore stand together with the explicit equality case
+    (`x.end == loc.end or x.end in loc` / `x.end != loc.end and x.end not in loc`); alone it rejects the last element."""
+    chk.rule(rid, 'R-KIND: an exclusive `.end` coordinate is tested for membership in a half-open location only together with the equal-ends case', floor)
+    for f in repo.funcs_in(*prefixes):
+        for st in ast.walk(f.node):
+            tests = []
+            if isinstance(st, (ast.If, ast.While, ast.IfExp)):
+                tests.append(st.test)
+            elif isinstance(st, ast.comprehension):
+                tests += st.ifs
+            elif isinstance(st, (ast.Return, ast.Assign)) and isinstance(getattr(st, 'value', None), (ast.BoolOp, ast.Compare)):
+                tests.append(st.value)
+            for t in tests:
+                for c in ast.walk(t):
+                    if isinstance(c, ast.Compare) and len(c.ops) == 1 and isinstance(c.ops[0], (ast.In, ast.NotIn)) and isinstance(c.left, ast.Attribute) and c.left.attr == 'end':
+                        L, R = unparse(c.left), unparse(c.comparators[0])
+                        eq = [x for x in ast.walk(t) if isinstance(x, ast.Compare) and len(x.ops) == 1 and isinstance(x.ops[0], (ast.Eq, ast.NotEq))
+                              and {unparse(x.left), unparse(x.comparators[0])} in ({L, R + '.location.end'}, {L, R + '.end'})]
+                        chk.ob(rid, f"{f.qual}: `{unparse(c)}` stands with the equal-ends case", repo.loc(f, c), bool(eq),
+                               f"`{unparse(c)}` tests an exclusive end coordinate for membership in the half-open `{R}` without the `{L} == {R}.end` case: a feature that "
+                               f"ends exactly at the end of `{R}` (the last exon of a transcript) is treated as lying outside", key=f"{f.qual}::end-in::{R}", fn=f.qual)
+
+
+# ----------------------------------------------------------------------------- every own option of a command is read
+def options_live(chk, repo, rid, subparser_qual, entry_qual, pkg_prefixes, floor=1, ignore=()):
+    """R-OPTION: every option a command's own sub-parser defines is read (args.<dest>) in code reachable from the command's entry
+    function, and the read is not inert.  An option that is accepted but no longer read silently falls back to a library default
+    (e.g. `--enzyme` not handed to the filter: the miscleavage count is always tryptic)."""
+    from sa import options as O
+    chk.rule(rid, 'R-OPTION: every option defined by the command itself is read in reachable code', floor)
+    sp = repo.func(subparser_qual)
+    f = repo.func(entry_qual)
+    chk.uses(sp, f)
+    opts = O.cli_options(repo, sp)
+    own = {d: v for d, v in opts.items() if v[1].split(':')[0].endswith(sp.module.relpath.split('/')[-1])}
+    reach = O.reachable_functions(repo, f, depth=2, same_pkg_prefixes=tuple(pkg_prefixes))
+    nodes = [g.node for g in reach]
+    for dest, (flag, where) in sorted(own.items()):
+        if dest in ignore:
+            continue
+        reads = O.option_reads(nodes, dest)
+        live = [r for r in reads if not O.is_inert_read(repo, r)]
+        chk.ob(rid, f"{flag} is read by the command", where, bool(live),
+               f"option {flag} (args.{dest}) is accepted but {'never read' if not reads else 'only read inertly'} in the code of the command: its value has no effect "
+               "and the library default is used instead", key=f"{entry_qual}::option::{dest}", fn=f.qual)
+
+
+# ----------------------------------------------------------------------------- header entries are compared as entries, not as substrings
+def no_substring_on_headers(chk, repo, rid, prefixes, attrs=('description', 'label', 'original_label'), floor=0):
+    """R-KIND: a FASTA header is the delimiter-joined list of its entries.  `entry in record.description` is a SUBSTRING test on that
+    string ('...|1' is a substring of '...|12'), not a test for the entry; whoever needs "is this entry already there" must split
+    the header first.  Every `x in <obj>.description` (string attribute on the right) in the pool code is an instance."""
+    chk.rule(rid, 'R-KIND: no substring test (`x in <record>.description`) stands in for a comparison of header entries', floor)
+    n = 0
+    for f in repo.funcs_in(*prefixes):
+        for c in ast.walk(f.node):
+            if isinstance(c, ast.Compare) and len(c.ops) == 1 and isinstance(c.ops[0], (ast.In, ast.NotIn)) and isinstance(c.comparators[0], ast.Attribute) \
+                    and c.comparators[0].attr in attrs and not (isinstance(c.left, ast.Constant) and isinstance(c.left.value, str) and len(c.left.value) <= 2):
+                n += 1
+                chk.ob(rid, f"{f.qual}: `{unparse(c)}`", repo.loc(f, c), False,
+                       f"`{unparse(c)}` is a substring test on the header string: an entry that is a textual prefix / part of another entry ('...|1' vs '...|12') counts as "
+                       "present, so a header entry is dropped (or kept) by accident", key=f"{f.qual}::substring::{unparse(c.comparators[0])}", fn=f.qual)
+    chk.extra['substring_tests'] = n
+    # built-in positive example: the rule must recognise the construct it is about
+    probe = ast.parse("def f(p, s):\n    if p.description in s.description:\n        return True\n").body[0]
+    hit = [c for c in ast.walk(probe) if isinstance(c, ast.Compare) and isinstance(c.ops[0], ast.In) and isinstance(c.comparators[0], ast.Attribute) and c.comparators[0].attr in attrs]
+    chk.ob(rid, 'built-in example of the construct is recognised', 'rules/shared.py', len(hit) == 1, 'self-check of the matcher failed', key=rid + '::example')
+
+
+# ----------------------------------------------------------------------------- reported coordinates are converted as reported (no clamping)
+def no_clamped_conversion(chk, repo, rid, quals, converter='coordinate_genomic_to_gene', floor=None):
+    """R-TAINT: a genomic position that is converted to gene coordinates must be the position the tool reported (up to the fixed
+    1-based / end-exclusive adjustments).  If it first goes through min() / max() / a clip against the gene or transcript bounds, an
+    event that reaches across the boundary is silently shortened instead of being rejected by the boundary checks or by the
+    converter's own range error.  May-taint over all assignments of the function (flow-insensitive, conservative)."""
+    CLAMP = ('min', 'max', 'clip', 'clamp')
+    chk.rule(rid, f"R-TAINT: no position handed to {converter}() has been clamped (min / max) against a boundary", floor if floor is not None else len(quals))
+    for q in quals:
+        f = repo.func(q)
+        chk.uses(f)
+        tainted = {}
+
+        def dirty(e):
+            for x in ast.walk(e):
+                if isinstance(x, ast.Call) and call_name(x) in CLAMP:
+                    return f"`{unparse(x)[:60]}`"
+                if isinstance(x, ast.Name) and x.id in tainted:
+                    return tainted[x.id]
+            return None
+        for _ in range(6):
+            for n in ast.walk(f.node):
+                if isinstance(n, (ast.Assign, ast.AugAssign, ast.AnnAssign)) and getattr(n, 'value', None) is not None:
+                    why = dirty(n.value)
+                    if why:
+                        tgts = n.targets if isinstance(n, ast.Assign) else [n.target]
+                        for t in tgts:
+                            for nm in ast.walk(t):
+                                if isinstance(nm, ast.Name) and nm.id not in tainted:
+                                    tainted[nm.id] = why
+        calls = [c for c in ast.walk(f.node) if isinstance(c, ast.Call) and call_name(c) == converter and c.args]
+        if not calls:
+            chk.undecided(rid, f"{q}: {converter} calls", f.where, f"no {converter}(...) call found", key=q + '::clamp', fn=f.qual)
+            continue
+        bad = [(c, dirty(c.args[0])) for c in calls if dirty(c.args[0])]
+        chk.ob(rid, f"{q}: {len(calls)} converted positions are the reported ones", f.where, not bad,
+               '; '.join(f"`{unparse(c.args[0])}` derives from {w}" for c, w in bad[:2]) + ': the reported span is cut to fit before the conversion, so an event '
+               'touching the gene / transcript boundary is emitted truncated instead of being rejected', key=q + '::clamp', fn=f.qual)
